@@ -57,7 +57,15 @@ type CaseB struct {
 
 // ---------------------------------------------------------------- the real service endpoint
 
-type svcTS struct{ ack chan struct{} }
+// svcTS embeds the interface it stands in for, so that it keeps satisfying it when the
+// interface grows (methods the service never calls on disconnect-free paths stay nil);
+// ListenerServiceExc2Remove is called by ClientClose and must be a no-op here.
+type svcTS struct {
+	service.Teamserver
+	ack chan struct{}
+}
+
+func (s *svcTS) ListenerServiceExc2Remove(client *service.ClientService) {}
 
 func (s *svcTS) AgentAdd(a *agent.Agent) []*agent.Agent { return nil }
 func (s *svcTS) ListenerServiceExc2Add(Name, ExEndpoint string, client *service.ClientService) error {
